@@ -398,7 +398,7 @@ def main(prop, modname, tier, nproc=None):
             lines.append(e["error"])
     for s in spurious[:5]:
         lines.append("HARNESS-ERROR non-reproducing counterexample obligation=%s why=%s case=%s observed=%s" % (
-            s["violation"]["obligation"], s["why"], json.dumps(s["violation"]["case"])[:400], json.dumps(s.get("observed"))[:300]))
+            s["violation"]["obligation"], s["why"], json.dumps(s["violation"]["case"])[:int(os.environ.get("VERIF_CASE_CHARS", "400"))], json.dumps(s.get("observed"))[:300]))
     for m in mismatches[:5]:
         lines.append("MODEL-ERROR twin/real mismatch: %s case=%s expect=%s observed=%s" % (
             m.get("why"), json.dumps(m["case"])[:400], json.dumps(m.get("expect"))[:300], json.dumps(m.get("observed"))[:300]))
